@@ -771,7 +771,11 @@ impl Builtins {
                     }
                     elems.push(Rc::new(P(Int(num))));
                     pos_list.push(pos.clone());
-                    num += step;
+                    num = match num.checked_add(step) {
+                        Some(next) => next,
+                        // The next value would be past i64::MAX and therefore past end.
+                        None => break,
+                    };
                 }
             }
             _ => {
